@@ -31,7 +31,7 @@ TITLE = "Determinant-list trials mean what they say; an exact trial gives zero v
 
 MENU = {"quick": 32, "thorough": 96}
 TIERS = {
-    "quick": dict(runs=32 * 8, budget_s=200, recheck=2, shrink_s=90.0, run_timeout_s=1200),
+    "quick": dict(runs=32 * 8, budget_s=330, recheck=2, shrink_s=90.0, run_timeout_s=1200),
     "thorough": dict(runs=96 * 60, budget_s=1200, recheck=4, shrink_s=240.0, run_timeout_s=1800),
 }
 E_TOL = 2.0e-5  # finite-difference (eps = 1e-4) local energy of the AD-based trial + float32 samples (block energies)
